@@ -470,9 +470,12 @@ func loginGen(tier string, rng *mrand.Rand, emit func(Case)) {
 	}{{0, plain}, {35, encd}} {
 		emitS("valid", base.enc, 8, 12, base.toks)
 		// the packet size is announced with the final acknowledgement
-		withEnv := append([]string{}, base.toks...)
-		withEnv = append(append(withEnv[:len(withEnv)-2:len(withEnv)-2], "env:2048"), base.toks[len(base.toks)-2:]...)
-		emitS("valid-env", base.enc, 8, 12, withEnv)
+		// (every size the header's 16-bit length field and the library's own check admit: boundaries)
+		for _, sz := range []int{2048, 9, 512, 4096, 16384, 32767, 32768, 40000, 65535} {
+			withEnv := append([]string{}, base.toks...)
+			withEnv = append(append(withEnv[:len(withEnv)-2:len(withEnv)-2], fmt.Sprintf("env:%d", sz)), base.toks[len(base.toks)-2:]...)
+			emitS("valid-env", base.enc, 8, 12, withEnv)
+		}
 		// single-edit mutants: delete, duplicate, swap, replace, insert
 		for i := range base.toks {
 			del := append(append([]string{}, base.toks[:i]...), base.toks[i+1:]...)
